@@ -376,6 +376,11 @@ structure Opts where
   bloomSize : Nat      -- `WithBloomFilterSize` (0 = not given: 1000)
   bloomK : Nat         -- `WithBloomFilterHashFunctions` argument (0 = not given: 3)
   versioned : Bool     -- every route is registered in one version tree that every request selects
+  /-- version tree only: `some k` = `Warmup()` is called explicitly before the k-th registration of the
+  script (the version cache is compiled from the first k routes and never refreshed; later routes are
+  registered immediately, every chained `Where*` re-registers them in place); `none` = warm-up after
+  the last registration -/
+  warmAt : Option Nat := none
 deriving DecidableEq, Repr
 
 def Opts.size (o : Opts) : Nat := if o.bloomSize = 0 then defaultBloomFilterSize else o.bloomSize
@@ -429,15 +434,27 @@ def serveCompiled (hash : Bytes → Nat) (sat : Nat → Bytes → Bool) (o : Opt
           | (none, _) => notFound sat r req
       | none => notFound sat r req
 
+/-- the registrations that warm-up has seen -/
+def Opts.warmed (o : Opts) (script : List Reg) : List Reg :=
+  match o.warmAt with
+  | some k => script.take k
+  | none => script
+
+/-- `compileVersionRoutes` at warm-up, then `versionCache.Load(version + ":" + method)` and
+`getRouteWithPath`: the table of the method tree as it was at warm-up -/
+def versionLookup (hash : Bytes → Nat) (o : Opts) (warmed : List Reg) (m path : Bytes) : Option (Bytes × Leaf) :=
+  (((build false warmed).trees.find? (·.1 = m)).map (·.2)).bind fun tw =>
+    (versionTable hash o.size o.k tw).bind (·.get hash path)
+
 /-- `ServeHTTP` when every route lives in the version tree the request selects: the main trees are
-empty, `serveVersionedRequest` consults the version cache and then the tree; a miss ends in
-`handleNotFound` against the (empty) main trees. Route compilation does not enter. -/
+empty, `serveVersionedRequest` consults the version cache (compiled at warm-up) and then the tree; a
+miss ends in `handleNotFound` against the (empty) main trees. Route compilation does not enter. -/
 def serveVersioned (hash : Bytes → Nat) (sat : Nat → Bytes → Bool) (o : Opts) (script : List Reg) (noRoute : Bool) (req : Req) : Obs :=
   let r := build noRoute script
   let empty : Router := ⟨[], noRoute⟩
   match (r.trees.find? (·.1 = req.method)).map (·.2) with
   | some t =>
-    match (versionTable hash o.size o.k t).bind (·.get hash req.path) with
+    match versionLookup hash o (o.warmed script) req.method req.path with
     | some (p, lf) => servedTable lf p req
     | none =>
       match getRoute sat t req.path Ctx.fresh with
